@@ -63,6 +63,15 @@ func (e *Env) finalize() {
 // hooks lets a property's scenario builder observe extra things.
 type hooks struct {
 	cloner inprocgrpc.Cloner
+	rec    *recCloner
+}
+
+// own / returned bracket a message handed to the library (C06).
+func (e *Env) own(m interface{}, tag, call string) *ownedMsg {
+	if e.hooks == nil || e.hooks.rec == nil || e.native {
+		return nil
+	}
+	return e.hooks.rec.own(m, tag, call)
 }
 
 func (e *Env) goTask(name string, fn func()) {
@@ -228,9 +237,12 @@ func (e *Env) handlerOps(i int, tn string, stream grpc.ServerStream, ops []strin
 		case op[0] == 's':
 			seq, _ := strconv.Atoi(op[1:])
 			rr.SrvSendAttempt = append(rr.SrvSendAttempt, tag(i, "s", seq))
+			resp := newMsg(i, "s", seq)
+			own := e.own(resp, tag(i, "s", seq), "handler SendMsg")
 			e.where("handler:SendMsg")
-			err := stream.SendMsg(newMsg(i, "s", seq))
+			err := stream.SendMsg(resp)
 			e.where("")
+			own.returned()
 			rr.SrvSendRes = append(rr.SrvSendRes, es(err))
 			if err == nil {
 				rr.SrvSendDone++
@@ -300,9 +312,12 @@ func (e *Env) clientOps(i int, tn string, c *cli, ops []string) {
 		case op == "I":
 			var resp Msg
 			rr.SendAttempt = append(rr.SendAttempt, tag(i, "c", 0))
+			req := newMsg(i, "c", 0)
+			own := e.own(req, tag(i, "c", 0), "Invoke")
 			e.where("client:Invoke")
-			err := e.ch.Invoke(e.ctx, e.method(i), newMsg(i, "c", 0), &resp, grpc.Header(&c.hdr), grpc.Trailer(&c.trl))
+			err := e.ch.Invoke(e.ctx, e.method(i), req, &resp, grpc.Header(&c.hdr), grpc.Trailer(&c.trl))
 			e.where("")
+			own.returned()
 			rr.RecvRes = append(rr.RecvRes, es(err))
 			if err == nil {
 				rr.CliRecv = append(rr.CliRecv, string(resp.Payload))
@@ -316,9 +331,12 @@ func (e *Env) clientOps(i int, tn string, c *cli, ops []string) {
 		case op[0] == 'S':
 			seq, _ := strconv.Atoi(op[1:])
 			rr.SendAttempt = append(rr.SendAttempt, tag(i, "c", seq))
+			req := newMsg(i, "c", seq)
+			own := e.own(req, tag(i, "c", seq), "SendMsg")
 			e.where("client:SendMsg")
-			err := c.stream.SendMsg(newMsg(i, "c", seq))
+			err := c.stream.SendMsg(req)
 			e.where("")
+			own.returned()
 			rr.SendRes = append(rr.SendRes, es(err))
 			if err == nil {
 				rr.CliSendDone++
@@ -361,6 +379,9 @@ func (e *Env) clientOps(i int, tn string, c *cli, ops []string) {
 				e.rec.ev(tn, "RecvMsg", es(err))
 				if err == nil {
 					rr.CliRecv = append(rr.CliRecv, string(m.Payload))
+					if rr.HdrAtFirstRecv == "" && len(rpc.Client2) == 0 {
+						rr.HdrAtFirstRecv = mdStr(c.hdr)
+					}
 					if m.Code == 77 {
 						rr.Monitor = append(rr.Monitor, "merge:receive destination was merged, not overwritten")
 					}
@@ -373,6 +394,9 @@ func (e *Env) clientOps(i int, tn string, c *cli, ops []string) {
 					rr.Finals = append(rr.Finals, es(err))
 					if rr.FinalErr == "" {
 						rr.FinalErr = es(err)
+						if len(rpc.Client2) == 0 {
+							rr.TrlAtFinal = mdStr(c.trl)
+						}
 					}
 				}
 				if op == "R" || err != nil {
